@@ -207,6 +207,7 @@ type Exec struct {
 	prop       string
 	syncMaps   map[string]*MapV
 	symAddrs   bool
+	globalWriteSeen []string
 	stubs      map[string]Value
 	stubsPre   map[string]Value
 	ptrInts    map[string]*Term
@@ -340,6 +341,7 @@ func (e *Exec) resetPath(prefix []Decision) {
 	e.lastPanic = nil
 	e.syncMaps = map[string]*MapV{}
 	e.symAddrs = false
+	e.globalWriteSeen = nil
 	e.stubs = map[string]Value{}
 	e.stubsPre = map[string]Value{}
 	e.ptrInts = map[string]*Term{}
